@@ -28,7 +28,7 @@ const FS_FAULTS: &[&str] = &[
 ];
 const ODD_NAMES: &[&str] = &["Proyecto [rev2]", "casa (copia) 1", "obra?", "edif*", "Año 2024 ñ", "a b\tc"];
 const RUST_LOGS: &[Option<&str>] = &[None, None, Some("error"), Some("warn"), Some("info"), Some("debug"), Some("trace")];
-const PATH_FORMS: &[&str] = &["abs", "abs", "rel", "dot_rel", "trailing_slash", "symlink", "dot", "file_arg"];
+const PATH_FORMS: &[&str] = &["abs", "abs", "rel", "dot_rel", "trailing_slash", "symlink", "dot", "file_arg", "symlink_dotdot", "redundant"];
 
 fn env_case(rng: &mut Rng, projects: &[String], faults: bool) -> Value {
     let project = rng.pick(projects).clone();
@@ -205,6 +205,10 @@ pub fn run(tier: &str, seed: u64, replay: Option<String>) -> i32 {
                 "path_form":"abs","hash_seed":0,"fake_time":Value::Null,"lang":Value::Null,"thor_r":false,"thor_v":0,"stdout_to":dev}));
         }
         // a project kept in a directory with an unusual name, reached through a symlink and a relative path
+        for form in ["symlink_dotdot", "redundant"] {
+            env_jobs.push(json!({"t":"env","project":p,"tool":"hulc2model","use_extra":false,"fs":[],"rust_log":Value::Null,
+                "path_form":form,"hash_seed":0,"fake_time":Value::Null,"lang":Value::Null,"thor_r":false,"thor_v":0}));
+        }
         for (form, name) in [("symlink", "Proyecto [rev2]"), ("rel", "casa (copia) 1")] {
             env_jobs.push(json!({"t":"env","project":p,"tool":"hulc2model","use_extra":false,"fs":["odd_dir_name"],"odd_name":name,"rust_log":Value::Null,
                 "path_form":form,"hash_seed":0,"fake_time":Value::Null,"lang":Value::Null,"thor_r":false,"thor_v":0}));
